@@ -134,7 +134,10 @@ def _reference(case, samples_by_utt):
                 x = p.apply(x)
             feats = x[:, None] if comp is None else comp.compute_full(x)
             if comp is not None and posts and case["tool"] == "torch" and np.size(feats):
-                _PRE_POST_SCALE[utt] = float(np.max(np.abs(feats)))
+                # (the module's window and filters are single-precision numbers: its round-off is proportional to the level of
+                # the SIGNAL in a frame - a large offset that the filters reject still leaves eps32 * offset * sqrt(frame length))
+                span = float(getattr(comp, "frame_length", 0) or 2 * comp.frame_shift)
+                _PRE_POST_SCALE[utt] = float(np.max(np.abs(feats))) + 0.125 * float(np.max(np.abs(x))) * span ** 0.5
             for q in posts:
                 feats = q.apply(feats)
         except Discard:
